@@ -28,7 +28,8 @@ fn main() {
         if let Ok(mut g) = driver::LAST_PANIC.lock() {
             *g = info.location().map(|l| format!("{}:{}", l.file(), l.line()));
         }
-        if std::env::var_os("VERIF_PANIC_VERBOSE").is_some() {
+        // a panic outside any simulation is the harness's own (driver, worker bookkeeping): never silent
+        if std::env::var_os("VERIF_PANIC_VERBOSE").is_some() || !detsim::in_sim() {
             eprintln!("panic: {info}");
         }
     }));
